@@ -478,7 +478,13 @@ func keepalive(transport Transport, interval time.Duration, quit <-chan struct{}
 			if err := transport.Ping(); err != nil {
 				// When keepalive fails, we force close the transport. In all cases, the recv will also fail.
 				ticker.Stop()
-				_ = transport.Close()
+				select {
+				case <-quit:
+					// The session ended while the ping was under way: the loss has been reported, and the
+					// transport may already carry the next connection, which is not ours to close.
+				default:
+					_ = transport.Close()
+				}
 				return
 			}
 		case <-quit:
